@@ -715,3 +715,22 @@ if z3 is not None:
     CASES += [_ENG.build_kr_case("Gillespie3D", "C07"), _ENG.build_kr_case("GillespieGraph", "C07")]
     for _c in TAU:
         CASES += [reaction_prop_case(_c), diffusion_prop_case(_c), poisson_wrapper_case(_c), compute_nevt_case(_c)]
+
+
+def LATE_CASES():
+    """cases shared from C03 and C02 (which import this module)"""
+    if z3 is None:
+        return []
+    out = []
+    # "chemostated entries are exempt from the change": no store into a flagged entry, the guard of every store reading the flag
+    # of the stored entry itself (C03's contract), for both stochastic engines
+    from props import C03 as _C03
+    for _c in GILL + TAU:
+        out.append(_C03.no_store_into_flagged_case(_c))
+    # "one molecule moving between two neighbouring cells", all boundary conditions: the engine's neighbour table is the grid's
+    # relation (GetNeighborIndex / BuildMeshNeighbors contracts of C02)
+    from props import C02 as _C02
+    out.append(_C02.build_neighbors_case())
+    for _n in range(6):
+        out.append(_C02.pairing_grid_case(_n))
+    return out
